@@ -1,0 +1,7 @@
+//go:build !verif
+
+package table
+
+// verifFoldKey is a verification hook (see verif_on.go); identity when the
+// "verif" build tag is off.
+func verifFoldKey(k addrPrefixKey) addrPrefixKey { return k }
